@@ -88,6 +88,19 @@ def L_card_pos(s, e):
     return z3.Implies(member(s, e), card(s) >= 1)
 
 
+def L_card_empty():
+    return card(EMPTY) == 0
+
+
+diff = z3.Function("diff", SetN, SetN, Node)
+
+
+def L_card_ext(a, b):
+    """extensionality, skolemised: sets with different cardinalities differ at the witness diff(a, b)"""
+    d = diff(a, b)
+    return z3.Implies(card(a) != card(b), member(a, d) != member(b, d))
+
+
 def L_card_zero(s):
     x = z3.Const("x!c0", Node)
     return z3.Implies(card(s) == 0, z3.ForAll([x], z3.Not(member(s, x))))
